@@ -35,7 +35,7 @@ BAD_RE = re.compile(r'^<<"BAD", (\d+), "([^"]*)", "(.*)">>$')
 TIERS = {
     "quick": dict(a_cfg="MC_Backoff_q", a_random=4000, b_cfg="MC_Retry_q", b_pick=10, b_par=1, b_budget=70,
                   sim=0),
-    "thorough": dict(a_cfg="MC_Backoff", a_random=120000, b_cfg="MC_Retry", b_pick=None, b_par=6, b_budget=780,
+    "thorough": dict(a_cfg="MC_Backoff", a_random=120000, b_cfg="MC_Retry", b_pick=None, b_par=6, b_budget=600,
                      sim=1500),
 }
 PINNED_SIG = "orderly_close_no_reconnect"
@@ -311,7 +311,9 @@ def port_clash(lines):
         last = json.loads(lines[-1])
     except Exception:
         return False
-    return last.get("ev") == "result" and last.get("res") == "RemoteHandlerExited"
+    # EADDRINUSE: the port the driver had probed as free was taken by another process before the client bound it
+    return (last.get("ev") == "result" and last.get("res") == "RemoteHandlerExited"
+            and "os error 98" in last.get("detail", ""))
 
 
 def validate_traces(traces, work, tag, cfg="RetryTrace", jobs=8):
@@ -522,7 +524,7 @@ def check(prop, tier, seed, replay):
                         "(spec/BackoffTrace.tla)", "smallest rejected lines (what the code returned   specification: what spec/Backoff.tla assigns):"]
                 note += ["  " + a_describe(r, e) for r, e, _ in items[:12]]
                 text = [canon(r) + "\n" for r, _, _ in items[:40]]
-                path = vlib.save_replay(prop, re.sub(r"[^A-Za-z0-9_]+", "_", sig), text, note="\n".join(note))
+                path = replay or vlib.save_replay(prop, re.sub(r"[^A-Za-z0-9_]+", "_", sig), text, note="\n".join(note))
                 violations.append((path, sig, len(items)))
                 log("\n".join(note[:8]))
         # ---- verdict, part B
@@ -551,7 +553,7 @@ def check(prop, tier, seed, replay):
                     others = {i: s for i, s in B["pinned_other"].items()}
                     if others:
                         note.append(f"logs that do not conform to the pinned behaviour either: {sorted(others.items())[:10]}")
-                path = vlib.save_replay(prop, re.sub(r"[^A-Za-z0-9_]+", "_", sig), B["traces"][i0], note="\n".join(note))
+                path = replay or vlib.save_replay(prop, re.sub(r"[^A-Za-z0-9_]+", "_", sig), B["traces"][i0], note="\n".join(note))
                 violations.append((path, sig, len(items)))
                 log("\n".join(note))
         wall = time.time() - t0
